@@ -23,40 +23,45 @@ structure Exp (α : Type) where
 def Exp.product {α} (a b : Exp α) : Exp α :=
   ⟨a.rows.flatMap (fun r => b.rows.map (fun r' => r ++ r')), a.shape ++ b.shape⟩
 
-/-- for (x, y) in zip(a, b): x ++ y   — only for operands of equal shape -/
-def Exp.zip {α} (a b : Exp α) : Except Err (Exp α) :=
-  if a.shape ≠ b.shape then .error .shape else .ok ⟨List.zipWith (· ++ ·) a.rows b.rows, a.shape⟩
+/-- for (x, y) in zip(a, b): x ++ y   — only for operands of equal shape (`none` = the request is rejected) -/
+def Exp.zip {α} (a b : Exp α) : Option (Exp α) :=
+  if a.shape = b.shape then some ⟨List.zipWith (· ++ ·) a.rows b.rows, a.shape⟩ else none
+
+/-- lift to possibly rejected operands -/
+def prodO {α} (x y : Option (Exp α)) : Option (Exp α) :=
+  match x, y with
+  | some a, some b => some (a.product b)
+  | _, _ => none
+
+def zipO {α} (x y : Option (Exp α)) : Option (Exp α) :=
+  match x, y with
+  | some a, some b => a.zip b
+  | _, _ => none
 
 mutual
-/-- `elems n` = the elements field `n` is split over, `shape n` = its shape. -/
-def expand {α} (elems : Name → List α) (shape : Name → List Nat) : Spl → Except Err (Exp α)
-  | .fld n => .ok ⟨(elems n).map (fun x => [(n, x)]), shape n⟩
+/-- `elems n` = the elements field `n` is split over, `shape n` = its shape.  `none` = rejected. -/
+def expand {α} (elems : Name → List α) (shape : Name → List Nat) : Spl → Option (Exp α)
+  | .fld n => some ⟨(elems n).map (fun x => [(n, x)]), shape n⟩
   | .outer l => expandOuter elems shape l
   | .inner l => expandInner elems shape l
-def expandOuter {α} (elems : Name → List α) (shape : Name → List Nat) : List Spl → Except Err (Exp α)
-  | [] => .ok ⟨[[]], []⟩
-  | s :: rest =>
-    match expand elems shape s, expandOuter elems shape rest with
-    | .ok a, .ok b => .ok (a.product b)
-    | .error e, _ => .error e
-    | _, .error e => .error e
-def expandInner {α} (elems : Name → List α) (shape : Name → List Nat) : List Spl → Except Err (Exp α)
-  | [] => .error .malformed
+def expandOuter {α} (elems : Name → List α) (shape : Name → List Nat) : List Spl → Option (Exp α)
+  | [] => some ⟨[[]], []⟩
+  | s :: rest => prodO (expand elems shape s) (expandOuter elems shape rest)
+def expandInner {α} (elems : Name → List α) (shape : Name → List Nat) : List Spl → Option (Exp α)
+  | [] => none
   | s :: rest =>
     match rest with
     | [] => expand elems shape s
-    | _ :: _ =>
-      match expand elems shape s, expandInner elems shape rest with
-      | .ok a, .ok b => a.zip b
-      | .error e, _ => .error e
-      | _, .error e => .error e
+    | _ :: _ => zipO (expand elems shape s) (expandInner elems shape rest)
 end
 
+/-- the jobs of a split: one row per job, `none` = rejected before any job -/
+def jobs {α} (elems : Name → List α) (shape : Name → List Nat) (s : Spl) : Option (List (List (Name × α))) :=
+  (expand elems shape s).map (·.rows)
+
 /-- index level: field `n` is split over `0 … prod (env n) - 1` -/
-def expandInd (env : ShapeEnv) (s : Spl) : Except Err (List (List (Name × Nat))) :=
-  match expand (fun n => List.range (prod (env n))) env s with
-  | .ok e => .ok e.rows
-  | .error e => .error e
+def expandInd (env : ShapeEnv) (s : Spl) : Option (List (List (Name × Nat))) :=
+  jobs (fun n => List.range (prod (env n))) env s
 
 mutual
 /-- elements found `n` levels below `v`, depth first (an atom met earlier counts as an element) -/
@@ -72,9 +77,10 @@ end
 /-- the elements of the list `l` at depth `n ≥ 1` (depth 1 = the items of `l` itself) -/
 def leavesAt (n : Nat) (l : List Nested) : List Nested := leavesOf n (.node l)
 
-/-- dimensions of a list that is rectangular down to depth `n` (`none` = ragged or too shallow). -/
+/-- dimensions of a list that is rectangular down to depth `n ≥ 1` (`none` = ragged or too shallow, or `n = 0`,
+    which is not a container dimension). -/
 def dims? : Nat → List Nested → Option (List Nat)
-  | 0, l => some [l.length]
+  | 0, _ => none
   | 1, l => some [l.length]
   | n + 2, l =>
     match l with
@@ -95,10 +101,8 @@ def specShape (n : Nat) (l : List Nested) : List Nat :=
   | none => [(leavesAt n l).length]
 
 /-- value level: nested loops over the depth-`ndim` elements of every field -/
-def expandVal (venv : VEnv) (s : Spl) : Except Err (List (List (Name × Nested))) :=
-  match expand (fun n => leavesAt (venv n).2 (venv n).1) (fun n => specShape (venv n).2 (venv n).1) s with
-  | .ok e => .ok e.rows
-  | .error e => .error e
+def expandVal (venv : VEnv) (s : Spl) : Option (List (List (Name × Nested))) :=
+  jobs (fun n => leavesAt (venv n).2 (venv n).1) (fun n => specShape (venv n).2 (venv n).1) s
 
 /-! ### combine -/
 
